@@ -15,6 +15,8 @@ import cait_common as cc
 from common import CorrResult, Failure, run_check
 
 THEOREMS_C10 = []
+# diagnosis only: VERIF_CAIT_OFF=field,spelling,shared switches the round-4 streams off
+_OFF = set(filter(None, __import__("os").environ.get("VERIF_CAIT_OFF", "").split(",")))
 THEOREMS_C11 = []
 
 
@@ -155,6 +157,20 @@ def gen_cases(rng, tier, prop):
             cases.append({"pattern": last[1].pattern, "code": code, "origin": "bin:cross", "setup": "code",
                           "api": "find_matches", "spelling": "plain"})
         last = (code, d)
+    # every AST field a sub-expression / identifier can stand in, each replaced in turn by a placeholder (list fields
+    # holding None beside nodes: dict displays with ** spreads, keyword-only parameters without defaults)
+    for idx, (code, d, tag) in enumerate(cc.field_scope(rng) if "field" not in _OFF else ()):
+        cases.append({"pattern": d.pattern, "code": code, "origin": "field:" + tag.split(":")[0] + "-" + tag.split(":")[-1],
+                      "setup": cc.SETUPS[idx % 3] if idx % 5 == 4 else "code",
+                      "api": "node" if idx % 13 == 12 else "find_matches", "spelling": "plain", "derived": d, "first": False})
+    # identifier spellings around the placeholder syntax, as concrete names of patterns and programs, in every
+    # position an identifier can stand in: a concrete name matches only itself
+    for idx, (pattern, code, tag, is_self) in enumerate(cc.spelling_scope(rng, tier) if "spelling" not in _OFF else ()):
+        c = {"pattern": pattern, "code": code, "origin": "spelling:" + tag, "setup": "code",
+             "api": "node" if idx % 17 == 16 else "find_matches", "spelling": "plain", "first": False}
+        if is_self:
+            c["derived"] = cc.Derived(code, pattern, {}, {}, [], "program")
+        cases.append(c)
     if tier == "thorough":
         cases.extend(small_scope_cases())
     return cases
@@ -522,6 +538,132 @@ def continued_cases(rng, tier, do, res, cases):
         if not any(s == k or s.startswith(k + ":") for s in seen):
             res.count("continued-root-never:" + k + (" (cannot be the root of a pattern given as text)"
                                                      if k in ("Expr", "arg", "arguments") else ""))
+
+
+# --------------------------------------------------------------------------
+# several matches that bind an __expr__ placeholder to the SAME student node - of one call and of successive calls on
+# one report - each continued from its own match['__e__']
+
+SHARED_CORPUS = [
+    ("a = 1\nb = 2\nprint(a + b)\n", ["_v_ = ___\n__e__"]),
+    ("total = 0\nfor x in xs:\n    total = total + x\n", ["for _v_ in ___:\n    __e__", "_v_ = 0\nfor ___ in ___:\n    __e__"]),
+    ("lo = 0\nhi = 9\nprint(hi - lo)\n", ["_v_ = ___\n__e__"]),
+    ("def f(p, q):\n    return p - q\n", ["def ___(_v_, ___):\n    __e__", "def ___(___, _v_):\n    __e__"]),
+]
+SHARED_PARENTS = ["_v_ = ___\n__e__", "for _v_ in ___:\n    __e__", "_v_ = 0\nfor ___ in ___:\n    __e__",
+                  "def ___(_v_, ___):\n    __e__", "def ___(___, _v_=___):\n    __e__", "___(_v_)\n__e__", "_v_ += ___\n__e__",
+                  "while _v_ < ___:\n    __e__", "with ___ as _v_:\n    __e__", "_v_ = _u_ = ___\n__e__", "_u_ = ___\n_v_ = ___\n__e__",
+                  "for _v_, _u_ in ___:\n    __e__", "for _u_ in ___:\n    _v_ = ___\n    __e__", "if _v_:\n    ___\nelse:\n    __e__"]
+
+
+def shared_node_cases(rng, tier, do, res, cases):
+    """Programs asked several parent patterns one after the other (one report, as the rules of a grading script);
+    EVERY match of every call is kept; matches that bind an __expr__ placeholder to the same student node but their
+    _name_ placeholders differently are continued one after the other through match['__e__'].find_matches(child) with
+      * the child derived from the bound subtree consistently with THAT match's bindings (C11: found, every placeholder
+        bound to what it replaced; C10: an embedding together with the match it continues), and
+      * the children derived for the RIVAL matches (the same placeholder name stands for another identifier there:
+        whatever is returned must agree with the bindings of the match it was taken from - C10)."""
+    n_prog = {"quick": 24, "thorough": 120}[tier]
+    sources = [(code, list(pats)) for code, pats in SHARED_CORPUS]
+    cgen = cc.ContGen(rng)
+    for i in range(n_prog):
+        try:
+            code, binder, binds = cgen.program(rng.randrange(10 ** 6))
+        except SyntaxError:
+            continue
+        if rng.random() < 0.5:
+            y = cc.CONT_IDS[rng.randrange(len(cc.CONT_IDS))][1]
+            code = "%s = 0\n%s" % (y, code)         # a rival binding for `_v_ = 0` / `_v_ = ___`
+        sources.append((code, ([binder] if "__e__" in binder else []) + rng.sample(SHARED_PARENTS, 3) + SHARED_PARENTS[:1]))
+    other = list(dict.fromkeys(c["code"] for c in cases if c["origin"].split(":")[0] in ("gen", "decoy")
+                               and small_program(c["code"], 120)))
+    rng.shuffle(other)
+    for code in other[:{"quick": 14, "thorough": 60}[tier]]:
+        sources.append((code, rng.sample(SHARED_PARENTS, 4) + SHARED_PARENTS[:1]))
+    n_groups, max_groups = 0, {"quick": 60, "thorough": 250}[tier]
+    for code, parents in sources:
+        try:
+            tree = ast.parse(code)
+        except SyntaxError:
+            continue
+        opath = cc.ast_index(tree)
+        by_id = {id(n): n for n in ast.walk(tree)}
+        node_of = {pth: by_id[i] for i, pth in opath.items() if i in by_id}
+        entries = {}
+        for ppat in list(dict.fromkeys(parents)):
+            pc = {"pattern": ppat, "code": code, "origin": "shared:parent", "setup": "code", "api": "find_matches",
+                  "spelling": "plain"}
+            pr = do(pc)
+            if pr is None or pr.exc is not None or not pr.matches:
+                continue
+            for mi, cm in enumerate(pr.matches):
+                bound = {}
+                for (t, k), lst in cm["binds"].items():
+                    ids = {i for i, _ in lst}
+                    if t == "v" and len(ids) == 1:
+                        bound[k] = next(iter(ids))
+                for key, anchor in cm["exps"].items():
+                    if bound and tuple(anchor) in node_of:
+                        entries.setdefault(tuple(anchor), []).append((pc, pr, mi, key, bound))
+        for anchor, group in sorted(entries.items()):
+            if len({json.dumps(e[4], sort_keys=True) for e in group}) < 2:
+                res.count("shared-node:one-binding-only")
+                continue
+            if n_groups >= max_groups:
+                res.count("shared-node:groups-over-budget")
+                continue
+            n_groups += 1
+            if len(group) > 3:
+                # two matches with different bindings first
+                first = group[0]
+                diff = [e for e in group[1:] if e[4] != first[4]]
+                rest = [e for e in group[1:] if e is not diff[0]]
+                group = [first, diff[0]] + rng.sample(rest, 1)
+            res.count("shared-node:groups")
+            top = node_of[anchor]
+            if isinstance(top, ast.Expr):
+                top = top.value
+            inner = [n for n in ast.walk(top) if isinstance(n, (ast.expr, ast.stmt)) and not isinstance(n, (ast.Expr, ast.Slice, ast.Starred))
+                     and not isinstance(getattr(n, "ctx", None), (ast.Store, ast.Del)) and sum(1 for _ in ast.walk(n)) <= 40]
+            children = []                      # (owner index, pattern, expect | None)
+            for gi, (pc, pr, mi, key, bound) in enumerate(group):
+                idents = set(bound.values())
+                having = [n for n in inner if idents & ({x.id for x in ast.walk(n) if isinstance(x, ast.Name)} |
+                                                         {x.arg for x in ast.walk(n) if isinstance(x, ast.arg)})]
+                targets = ([top] if top in having else []) + (rng.sample(having, min(2, len(having))) if having else [])
+                for target in targets[:2]:
+                    try:
+                        dd = derive_child(rng, code, tree, target, bound, "consistent")
+                    except (KeyError, RecursionError):
+                        dd = None
+                    if dd is None or not dd.pattern.strip():
+                        continue
+                    keys = sorted(dd.exps)
+                    mp = {k: "__s%d__" % i for i, k in enumerate(keys)}
+                    cut = len(anchor)
+                    exps = {mp[k]: [tuple(x[cut:]) for x in (v[0], v[2]) if x is not None and tuple(x[:cut]) == anchor]
+                            for k, v in dd.exps.items()}
+                    expect = {"vars": dict(dd.vars), "exps": exps, "naming": "shared-node"} if all(exps.values()) else None
+                    children.append((gi, _rename_exps(dd.pattern, mp), expect))
+                for k in sorted(bound)[:1]:
+                    children.append((gi, k, None))
+            order = list(range(len(group)))
+            if rng.random() < 0.5:
+                order.reverse()
+            before = []
+            for gi in order:
+                pc, pr, mi, key, bound = group[gi]
+                for owner, pat, expect in children:
+                    sc = {"pattern": pat, "code": code, "origin": "shared:" + ("own-child" if owner == gi else "rival-child"),
+                          "setup": "code", "api": "sub", "spelling": "plain", "use_previous": True,
+                          "parent_pattern": pc["pattern"], "parent_key": key, "parent_match": mi,
+                          "sub_expect": expect if owner == gi else None, "before": list(before)}
+                    try:
+                        do(sc, api="sub", anchor=anchor, parent=pr.raw[mi], key=key, use_previous=True)
+                    except RuntimeError:
+                        res.count("skipped:continued-anchor-mismatch")
+                before.append({"parent_pattern": pc["pattern"], "parent_match": mi, "parent_key": key})
 
 
 def corpus_sub_expect(expect, run):
@@ -914,7 +1056,7 @@ def correspond(prop):
                 if kw:
                     r = cc.RealRun(c["pattern"], prog, **kw)
                 else:
-                    r = cc.RealRun(c["pattern"], prog, api=c["api"])
+                    r = cc.RealRun(c["pattern"], prog, api=c["api"], first=c.get("first", True))
             except (SyntaxError, RecursionError):
                 res.count("skipped:unparsable")
                 return None
@@ -934,6 +1076,8 @@ def correspond(prop):
                 sr = do(sc, api=api, anchor=pr.matches[0]["exps"][key], parent=pr.raw[0], key=key, use_previous=prev)
                 if sr is not None:
                     sc["sub_expect"] = corpus_sub_expect(expect, sr)
+        if "shared" not in _OFF:
+            shared_node_cases(rng, tier, do, res, cases)
         continued_cases(rng, tier, do, res, cases)
         for c in cases:
             r = do(c)
@@ -946,7 +1090,8 @@ def correspond(prop):
                 if r2.exc is not None or r2.matches != r.matches:
                     res.disagreements.append({"case": {"pattern": c["pattern"], "code": c["code"]},
                                               "real": "second call differs", "model": "-", "fields": ["repeat"]})
-            p_sub = (0.5 if tier == "quick" else 0.3) * (0.25 if c["origin"].startswith("bin:") else 1)
+            p_sub = (0.5 if tier == "quick" else 0.3) * (0.25 if c["origin"].startswith("bin:") else
+                                                         0.1 if c["origin"].startswith(("field:", "spelling:")) else 1)
             if rng.random() < p_sub:
                 for sc, kw in sub_cases(rng, c, r, res.distribution):
                     do(sc, **kw)
@@ -962,7 +1107,7 @@ def correspond(prop):
             if r.exc is not None or not r.matches or r.api in ("sub", "prev") or c.get("mono_parent") is not None:
                 continue
             gens = list(c.get("generalisations", []))
-            if not gens and rng.random() < p_mono:
+            if not gens and rng.random() < p_mono * (0.2 if c["origin"].startswith(("spelling:", "field:")) else 1):
                 try:
                     d = cc.derive(rng, c["pattern"], ast.parse(c["pattern"]), whole=True, max_steps=2)
                 except (SyntaxError, RecursionError):
@@ -1214,6 +1359,11 @@ def embed_verdicts(driver, run):
 def rerun(case):
     """re-execute a stored case dict on the real code"""
     prog = cc.Program(case["code"], case.get("setup", "code"))
+    for b in case.get("before") or []:
+        # matches looked up earlier on the same report: match['__e__'] hands out (and tags) the cached student node
+        bp = cc.RealRun(b["parent_pattern"], prog)
+        if bp.raw and b["parent_match"] < len(bp.raw):
+            bp.raw[b["parent_match"]][b["parent_key"]]
     if case.get("api") in ("sub", "prev"):
         parent = cc.RealRun(case["parent_pattern"], prog)
         key = case.get("parent_key")
@@ -1224,7 +1374,7 @@ def rerun(case):
     return cc.RealRun(case["pattern"], prog, api=case.get("api", "find_matches"))
 
 
-CASE_KEYS = ("pattern", "code", "setup", "api", "use_previous", "parent_pattern", "parent_key", "parent_match")
+CASE_KEYS = ("pattern", "code", "setup", "api", "use_previous", "parent_pattern", "parent_key", "parent_match", "before")
 
 
 def search_c10(rng, tier, broken, corr):
@@ -1294,10 +1444,19 @@ def search_c10(rng, tier, broken, corr):
                 return any(not v for v in embed_verdicts(driver, rr))
             p2, s2 = shrink(case["pattern"], case["code"], still)
             case = dict(case, pattern=p2, code=s2)
+        after_other = False
+        if case.get("before"):
+            alone = {k: v for k, v in case.items() if k != "before"}
+            if False in embed_verdicts(driver, rerun(alone)):
+                case = alone                  # fails on a fresh report as well: not a matter of what was looked up before
+            else:
+                after_other = True
         rr = rerun(case)
         vs = embed_verdicts(driver, rr)
         idx = vs.index(False) if False in vs else 0
         sig = {"oracle": "embedding", "pattern": case["pattern"], "code": case["code"]}
+        if after_other:
+            sig["after"] = "another-match-bound-to-the-same-student-node-was-looked-up-first"
         for k in ("api", "use_previous", "parent_pattern"):
             if case.get(k) not in (None, "find_matches", False):
                 sig[k] = case[k]
@@ -1327,6 +1486,9 @@ def search_c10(rng, tier, broken, corr):
                 sig["why"] = "continued-match-contradicts-inherited-binding"
                 detail = "; " + ", ".join("%s is bound to %s, the match it continues binds it to %s" % (k, a_, b_)
                                           for k, (a_, b_) in sorted(clash.items()))
+        if after_other:
+            detail += "; earlier on the same report: " + ", ".join(
+                "<match %d of %r>[%r]" % (b["parent_match"], b["parent_pattern"], b["parent_key"]) for b in case["before"])
         failures.append(Failure(sig, "%s on %r returns a match that is not an embedding%s" % (how, case["code"], detail),
             dict(case, match_index=idx, original={"pattern": c["pattern"], "code": c["code"]},
                  match=cc.show_match(rr.embed_matches()[idx]) if rr.matches else None)))
